@@ -317,6 +317,12 @@ class Headers:
     async def repair(self, start_height=0):
         previous_header_hash = fail = None
         batch_size = 36
+        if 0 < start_height <= self.height:
+            # link the first repaired header to the last one of the checkpointed chunk below it, or damage to it
+            # goes unseen while it is the tip; an all-zero placeholder (chunk not downloaded yet) cannot be linked
+            below = self._read(start_height - 1)
+            if len(below) == self.header_size and below != bytes(self.header_size):
+                previous_header_hash = self.hash_header(below)
         for height in range(start_height, self.height + 1, batch_size):
             headers = self._read(height, batch_size)
             if len(headers) % self.header_size != 0:
@@ -334,7 +340,8 @@ class Headers:
                     assert start_height > 0 and height == start_height
                 if fail:
                     log.warning("Header file corrupted at height %s, truncating it.", height - 1)
-                    self.io.seek(max(0, (height - 1)) * self.header_size, os.SEEK_SET)
+                    # never cut into the checkpointed chunks below start_height, they are verified by their hash
+                    self.io.seek(max(start_height, height - 1) * self.header_size, os.SEEK_SET)
                     self.io.truncate()
                     self.io.flush()
                     self._size = self.io.seek(0, os.SEEK_END) // self.header_size
